@@ -271,7 +271,9 @@ fn sql_domain(d: usize) -> Vec<(&'static str, Vec<f32>)> {
         large[d - 1] = 1e-18;
     }
     let dense: Vec<f32> = if d == 1 { vec![0.5] } else { (0..d).map(|i| if i % 2 == 0 { 0.5 } else { -0.5 }).collect() };
-    vec![("zero", vec![0.0; d]), ("axis", e0), ("neg-axis", neg), ("large", large), ("dense-alt", dense)]
+    // zero sits in the middle of the domain order so that canonical / reversed insertion
+    // orders place undefined-distance rows between defined ones
+    vec![("axis", e0), ("neg-axis", neg), ("zero", vec![0.0; d]), ("large", large), ("dense-alt", dense)]
 }
 
 fn vlit(v: &[f32]) -> String {
@@ -465,7 +467,8 @@ fn sql_table(ctx: &Ctx, db: &TestDb, tname: &str, c: &SqlCase, only: Option<(&st
                 let defined: Vec<&(usize, &'static str, Option<f64>)> = got.iter().filter(|g| g.2.is_some()).collect();
                 for w in defined.windows(2) {
                     if !le_tol(w[0].2.unwrap(), w[1].2.unwrap(), c.dim) {
-                        rep.violation("C24", "sql", &format!("C24/{}/{}/{}~{}/not-sorted", opname(op), dim_class(c.dim), w[0].1, w[1].1), || case(op, q), "non-decreasing exact distances", &shown());
+                        let pre = if undefined_total > 0 { "undef+" } else { "" };
+                        rep.violation("C24", "sql", &format!("C24/{}/{}/{pre}{}~{}/not-sorted", opname(op), dim_class(c.dim), w[0].1, w[1].1), || case(op, q), "non-decreasing exact distances", &shown());
                         viol = true;
                         break;
                     }
@@ -562,7 +565,7 @@ impl Check for C24 {
         let mut s = Spec::new(
             "C24",
             "exploration",
-            "(a) kernel case = (dimension d, ordered pair (a,b) of the per-dimension vector set {zero, unit axis first/last/middle, all-equal 0.75, alternating +-1, all 1e18, one 1e18 among ones, all 1e-18, repeating (1e18,1e-18,1), ramp, reversed ramp, negative half ramp, (3,..,4), (4,..,3)}); d = 1..=70 (thorough adds 127,128,129,1536); every case calls all 17 kernels of src/hnsw/distance.rs (5 dispatching entry points via select_distance_fn / select_squared_distance_fn / euclidean_squared, 5 scalar bodies, 5 AVX2+FMA bodies) and compares with an f64 evaluation of the definition; plus NaN/inf/f32::MAX inputs (no panic). Non-trivial = not (zero,zero). (b) SQL case = (dimension in {1,3,8,9,70}, multiset of n<=5 (quick) / n<=6 (thorough) vectors of the 5-vector domain {zero, e0, -e0, (1e18,0..,1e-18), dense +-0.5} inserted in canonical and in reversed order (thorough: also rotated by one, and with an HNSW index for n<=4), operator <-> or <=>, query vector of the domain, LIMIT none / 0 / 1..n / n+1); distances are recomputed in f64 from the returned vectors. Non-trivial = table has >= 2 rows.",
+            "(a) kernel case = (dimension d, ordered pair (a,b) of the per-dimension vector set {zero, unit axis first/last/middle, all-equal 0.75, alternating +-1, all 1e18, one 1e18 among ones, all 1e-18, repeating (1e18,1e-18,1), ramp, reversed ramp, negative half ramp, (3,..,4), (4,..,3)}); d = 1..=70 (thorough adds 127,128,129,1536); every case calls all 17 kernels of src/hnsw/distance.rs (5 dispatching entry points via select_distance_fn / select_squared_distance_fn / euclidean_squared, 5 scalar bodies, 5 AVX2+FMA bodies) and compares with an f64 evaluation of the definition; plus NaN/inf/f32::MAX inputs (no panic). Non-trivial = not (zero,zero). (b) SQL case = (dimension in {1,3,8,9,70}, multiset of n<=5 (quick) / n<=6 (thorough) vectors of the 5-vector domain {e0, -e0, zero, (1e18,0..,1e-18), dense +-0.5} inserted in canonical and in reversed order (thorough: also rotated by one, and with an HNSW index for n<=4), operator <-> or <=>, query vector of the domain, LIMIT none / 0 / 1..n / n+1); distances are recomputed in f64 from the returned vectors. Non-trivial = table has >= 2 rows.",
         );
         s.assumptions = &[
             "kernel oracle: f64 evaluation of sum (a_i-b_i)^2, its sqrt, sum a_i*b_i, 1 - dot/(|a||b|); accepted error 4*dim*eps_f32 relative to the sum of absolute terms (cosine: 4*(dim+2)*eps_f32 absolute) plus dim * smallest subnormal; nothing is demanded when the exact sum of squares / products / a squared norm exceeds the f32 range, nor for cosine with a zero vector (only: no panic)",
@@ -602,7 +605,7 @@ impl Check for C24 {
             }
         }
         rep.sample(|| json!({"kind": "kernel", "dim": 9, "a": "ramp", "b": "alt-sign", "meaning": "all 17 kernels on ([1..9],[1,-1,..])"}));
-        rep.sample(|| json!({"kind": "sql", "dim": 3, "rows": [0, 1, 1, 3], "hnsw": false, "op": "<=>", "q": 1, "meaning": "table {zero, e0, e0, large}, ORDER BY v <=> e0, every LIMIT"}));
+        rep.sample(|| json!({"kind": "sql", "dim": 3, "rows": [0, 0, 2, 3], "hnsw": false, "op": "<=>", "q": 0, "meaning": "table {e0, e0, zero, large}, ORDER BY v <=> e0, every LIMIT"}));
         // SQL part: one unit of work = one table
         let mut db: Option<TestDb> = None;
         let mut used = 0usize;
